@@ -498,6 +498,49 @@ theorem socks5_deadline_discipline (body : List Op × Bool) (hb : BodyPlain body
     rw [← List.cons_append, dls_append, h1]; rfl
   simp [ddSocks, wrapSocks, h2]
 
+private theorem foldl_dls (ops : List Op) (h : Halves) :
+    ops.foldl Halves.step h = (dls ops).foldl Halves.step h := by
+  induction ops generalizing h with
+  | nil => rfl
+  | cons o r ih =>
+    cases o <;> simp [dls, List.filter, Op.isDeadline, Halves.step, List.foldl] <;>
+      (first | exact ih _ | (simpa [dls] using ih _))
+
+/-- **neither half of the deadline stays armed after a successful handshake**: a trace with
+    verdict `true` for a successful call leaves the read AND the write half of the conn's
+    deadline cleared — for the six-line wrappers, `socks5.Handshake` and the obfs4 server.
+    (`SetDeadline` arms both halves; clearing only one of them, e.g. `SetReadDeadline(zero)`
+    after `SetDeadline(t)`, is a trace with verdict `false`.) -/
+theorem success_leaves_no_deadline (ops : List Op) :
+    (ddPlain ops true = true → finalHalves ops = (false, false)) ∧
+    (ddSocks ops true = true → finalHalves ops = (false, false)) ∧
+    (ddSrv ops true = true → finalHalves ops = (false, false)) := by
+  refine ⟨fun h => ?_, fun h => ?_, fun h => ?_⟩
+  · simp only [ddPlain, ↓reduceIte, Bool.and_eq_true, beq_iff_eq] at h
+    rw [finalHalves, foldl_dls, h.2]; rfl
+  · simp only [ddSocks, Bool.and_eq_true, beq_iff_eq] at h
+    rw [finalHalves, foldl_dls, h.2]; rfl
+  · simp only [ddSrv, ↓reduceIte, Bool.and_eq_true, beq_iff_eq] at h
+    have hw := h.2
+    have hd : dls ops = [Op.arm, Op.clear] := by
+      have : dls ops = dls (ops.filter (· ≠ Op.read)) := by
+        simp only [dls, List.filter_filter]
+        apply List.filter_congr
+        intro o _
+        cases o <;> simp [Op.isDeadline]
+      rw [this, hw]; rfl
+    rw [finalHalves, foldl_dls, hd]; rfl
+
+/-- the obfs4 server machine (every run, C03): a run that reports success has cleared both
+    halves -/
+theorem obfs4_server_success_leaves_no_deadline (ops : List Op) (h : ddSrv ops true = true) :
+    finalHalves ops = (false, false) :=
+  (success_leaves_no_deadline ops).2.2 h
+
+/-- clearing only the read half after `SetDeadline` is rejected and leaves the write half armed -/
+example : ddSrv [.arm, .read, .rclear, .write] true = false ∧
+    finalHalves [.arm, .read, .rclear, .write] = (false, true) := by decide
+
 example : ddPlain (wrapHandshake ([.write, .read, .read], true)).1 true = true := by decide
 example : (wrapHandshake ([.write, .read], false)).1 = [.arm, .write, .read] := by decide
 /-- a trace that forgets the clear, and one that reads before arming, get verdict `false` -/
